@@ -372,7 +372,7 @@ def run_case(case) -> Result:
 
 
 def shards(tier):
-    n = 500 if tier == "quick" else 40000
+    n = 800 if tier == "quick" else 40000
     out = [Shard("mv:" + f, (lambda f=f: movement_cases(f)), n, subject=f) for f in MOVES]
     out.append(Shard("geometry", lambda: geometry_cases(), n * 2, subject="Candle"))
     out += [Shard("witness:" + p, (lambda p=p: witness_cases(p)), n * 2, subject=p) for p in PATS]
